@@ -145,6 +145,24 @@ def judge(ctx, name, lock, wit, K, certs_rf, fields, allowed, t, now,
         ctx.mark_nontrivial(dg(name, bytes(lock), bytes(wit), t, now))
 
 
+def remark(witness: bytes, marker: bytes) -> bytes:
+    """the builder's chain witness with every `true` between two
+    certificates replaced by a push of `marker`"""
+    from ..ref import asm
+    out = b''
+    for nd in asm.disassemble(witness):
+        if nd[0] == 'op' and nd[1] == 'OP_TRUE':
+            out += isa.push(marker)
+        elif nd[0] == 'op' and nd[1] == 'OP_FALSE':
+            out += isa.op('FALSE')
+        elif nd[0] == 'op' and nd[1] in ('OP_PUSH0', 'OP_PUSH1', 'OP_PUSH2'):
+            v = nd[2]
+            out += isa.push(bytes([v]) if isinstance(v, int) else v)
+        else:
+            raise ValueError('unexpected instruction in a chain witness')
+    return out
+
+
 def judge_script_witnesses(ctx, rng, lock, honest, K, certs, fields, allowed,
                            t, now, n):
     if Cfg.mode == 'per-run':
@@ -326,6 +344,23 @@ def scenario(ctx, rng, j):
             w1 = t_.make_delegate_key_witness(signer, cs[0], fields, f_hex)
             judge(ctx, f'single:{name}', lock1, w1, pks[0], cs, fields,
                   allowed, t, now2, False, True)
+    # the "another certificate follows" marker between two certificates is
+    # any true value, not only the one byte the builder writes: with a longer
+    # one (first byte non-zero) the verdict is the same - in particular a
+    # non-final certificate that forbids further delegation still stops it
+    if n >= 2:
+        marker = rng.choice((b'\xff\xff', b'\xff\x00', b'\x01\xff',
+                             b'\x80\x00\x00', b'\x03\xe8', b'\xff' * 8))
+        for name, cs, signer in [('honest', certs, seeds[n])] + [
+                v for v in variants if v[0] in ('non-final-no-delegate',
+                                                'wrong-signer')]:
+            try:
+                w = remark(bytes(t_.make_delegate_key_chain_witness(
+                    signer, list(reversed(cs)), fields, f_hex)), marker)
+            except BaseException:
+                continue
+            judge(ctx, f'chain:{name}:long-marker#{n}', chain_lock, w, pks[0],
+                  cs, fields, allowed, t, now2, True, True)
     # non-permitted flag
     free = [b for b in range(8) if not (allowed >> b) & 1]
     if free:
